@@ -176,16 +176,11 @@ def attribute(fails, scheds):
             first[s["id"]] = idx[0] if idx else 10 ** 9
     out = []
     for tr, step, prop, clause in fails:
-        if tr in first and prop not in ("X", "C44"):
-            if step >= first[tr]:
-                if prop == "CONF":
-                    out.append((tr, step, "C44", "after-import-diverges-from-spec:" + clause))
-                # property-scoped failures after an import are consequences of the import: reported under C44
-                else:
-                    out.append((tr, step, "C44", "after-import:%s:%s" % (prop, clause)))
-            elif prop != "CONF":
-                out.append((tr, step, prop, clause))
-            else:
+        if tr in first and prop not in ("X", "C44") and step >= first[tr]:
+            out.append((tr, step, "C44", ("after-import-diverges-from-spec:" if prop == "CONF" else "after-import:%s:" % prop) + clause))
+            # in the general exploration (not in the probes of recorded findings) the failure also counts for the
+            # property whose monitor fired: a packet delivered twice after an import is still delivered twice
+            if not tr.startswith("KF-"):
                 out.append((tr, step, prop, clause))
         else:
             out.append((tr, step, prop, clause))
